@@ -54,6 +54,23 @@ var pool = func() []poolNum {
 	addI(pow(2, 64))
 	addI(pow(10, 30))
 	addI(new(big.Int).Neg(pow(10, 30)))
+	// both signs of the values around every machine word boundary (an encoder taking a
+	// word sized fast path shows at exactly these)
+	have := map[string]bool{}
+	for _, q := range p {
+		have[q.lit] = true
+	}
+	for _, k := range []int64{31, 32, 52, 53, 62, 63, 64, 65, 127, 128} {
+		for _, d := range []int64{-1, 0, 1} {
+			n := new(big.Int).Add(pow(2, k), big.NewInt(d))
+			for _, v := range []*big.Int{n, new(big.Int).Neg(n)} {
+				if !have[v.String()] {
+					have[v.String()] = true
+					addI(v)
+				}
+			}
+		}
+	}
 	addF("1e-7")
 	addF("1e21")
 	addF("1.5e300")
